@@ -50,12 +50,25 @@ func (self *supportedFeatures) Initialize(m *Module) error {
 			}
 		}
 	}
-	// a feature that depends on other features is only on when its own if-feature holds
+	// a feature that depends on other features is only on when its own if-feature holds,
+	// the features of an imported module go by the prefix of the import
+	visible := func() map[string]*Feature {
+		all := make(map[string]*Feature, len(enabled))
+		for id, f := range enabled {
+			all[id] = f
+		}
+		for prefix, imp := range m.imports {
+			for id, f := range self.perModule[imp.module] {
+				all[prefix+":"+id] = f
+			}
+		}
+		return all
+	}
 	for changed := true; changed; {
 		changed = false
 		for id, f := range enabled {
 			for _, iff := range f.IfFeatures() {
-				on, err := iff.Evaluate(enabled)
+				on, err := iff.Evaluate(visible())
 				if err != nil {
 					return err
 				}
